@@ -15,41 +15,41 @@ namespace RedisVerif.Grammar
 namespace CB
 open Bodies
 
-def set : CustomBody := ⟨Bodies.set, prefixV 2 (optVariant setOpts), Sound.set, Desc.set, Shape.set, Fin.set⟩
-def luaSet : CustomBody := ⟨Bodies.luaSet, prefixV 2 (optVariant luaSetOpts), Sound.luaSet, Desc.luaSet, Shape.luaSet, Fin.luaSet⟩
+def set : CustomBody := ⟨Bodies.set, prefixV 2 (optVariant setOpts), Sound.set, Desc.set, Shape.set, Fin.set, Chk.set⟩
+def luaSet : CustomBody := ⟨Bodies.luaSet, prefixV 2 (optVariant luaSetOpts), Sound.luaSet, Desc.luaSet, Shape.luaSet, Fin.luaSet, Chk.luaSet⟩
 def expire (c : Bytes) : CustomBody :=
-  ⟨Bodies.expire c, prefixV 2 (optVariant expireOpts), Sound.expire c, Desc.expire c, Shape.expire c, Fin.expire c⟩
-def getex : CustomBody := ⟨Bodies.getex, prefixV 1 (optVariant getexOpts), Sound.getex, Desc.getex, Shape.getex, Fin.getex⟩
+  ⟨Bodies.expire c, prefixV 2 (optVariant expireOpts), Sound.expire c, Desc.expire c, Shape.expire c, Fin.expire c, Chk.expire c⟩
+def getex : CustomBody := ⟨Bodies.getex, prefixV 1 (optVariant getexOpts), Sound.getex, Desc.getex, Shape.getex, Fin.getex, Chk.getex⟩
 def zrangebyscore (off cnt : Arg) (m : Lit) (u : Fmt) : CustomBody :=
   ⟨Bodies.zrangebyscore off cnt m u, prefixV 3 (optVariant (zrbsOpts off cnt m)), Sound.zrangebyscore off cnt m u,
-   Desc.zrangebyscore off cnt m u, Shape.zrangebyscore off cnt m u, Fin.zrangebyscore off cnt m u⟩
+   Desc.zrangebyscore off cnt m u, Shape.zrangebyscore off cnt m u, Fin.zrangebyscore off cnt m u, Chk.zrangebyscore off cnt m u⟩
 def scan (c : Bytes) (withKey : Bool) (u : Fmt) : CustomBody :=
   ⟨Bodies.scan c withKey u, prefixV (if withKey then 2 else 1) (optVariant scanOptTbl), Sound.scan c withKey u,
-   Desc.scan c withKey u, Shape.scan c withKey u, Fin.scan c withKey u⟩
-def sort : CustomBody := ⟨Bodies.sort, prefixV 1 (optVariant sortOpts), Sound.sort, Desc.sort, Shape.sort, Fin.sort⟩
+   Desc.scan c withKey u, Shape.scan c withKey u, Fin.scan c withKey u, Chk.scan c withKey u⟩
+def sort : CustomBody := ⟨Bodies.sort, prefixV 1 (optVariant sortOpts), Sound.sort, Desc.sort, Shape.sort, Fin.sort, Chk.sort⟩
 def zadd (score : Arg) : CustomBody :=
-  ⟨Bodies.zadd score, prefixV 1 (flagsVariant zaddFlags), Sound.zadd score, Desc.zadd score, Shape.zadd score, Fin.zadd score⟩
-def lmove : CustomBody := ⟨Bodies.lmove, prefixV 2 wordsVariant, Sound.lmove, Desc.lmove, Shape.lmove, Fin.lmove⟩
-def zrange (c : Bytes) : CustomBody := ⟨Bodies.zrange c, prefixV 3 wordsVariant, Sound.zrange c, Desc.zrange c, Shape.zrange c, Fin.zrange c⟩
-def command : CustomBody := ⟨Bodies.command, headVariant, Sound.command, Desc.command, Shape.command, Fin.command⟩
-def aclDryrun : CustomBody := ⟨Bodies.aclDryrun, prefixV 1 headVariant, Sound.aclDryrun, Desc.aclDryrun, Shape.aclDryrun, Fin.aclDryrun⟩
-def aclLog : CustomBody := ⟨Bodies.aclLog, wordsVariant, Sound.aclLog, Desc.aclLog, Shape.aclLog, Fin.aclLog⟩
+  ⟨Bodies.zadd score, prefixV 1 (flagsVariant zaddFlags), Sound.zadd score, Desc.zadd score, Shape.zadd score, Fin.zadd score, Chk.zadd score⟩
+def lmove : CustomBody := ⟨Bodies.lmove, prefixV 2 wordsVariant, Sound.lmove, Desc.lmove, Shape.lmove, Fin.lmove, Chk.lmove⟩
+def zrange (c : Bytes) : CustomBody := ⟨Bodies.zrange c, prefixV 3 wordsVariant, Sound.zrange c, Desc.zrange c, Shape.zrange c, Fin.zrange c, Chk.zrange c⟩
+def command : CustomBody := ⟨Bodies.command, headVariant, Sound.command, Desc.command, Shape.command, Fin.command, Chk.command⟩
+def aclDryrun : CustomBody := ⟨Bodies.aclDryrun, prefixV 1 headVariant, Sound.aclDryrun, Desc.aclDryrun, Shape.aclDryrun, Fin.aclDryrun, Chk.aclDryrun⟩
+def aclLog : CustomBody := ⟨Bodies.aclLog, wordsVariant, Sound.aclLog, Desc.aclLog, Shape.aclLog, Fin.aclLog, Chk.aclLog⟩
 -- bodies without keyword positions
-def ping := CustomBody.plain Desc.ping Bodies.ping Shape.ping Fin.ping
-def select := CustomBody.plain Desc.select Bodies.select Shape.select Fin.select
-def auth := CustomBody.plain Desc.auth Bodies.auth Shape.auth Fin.auth
-def eval (c : Bytes) (l : Lit) := CustomBody.plain (Desc.eval c l) (Bodies.eval c l) (Shape.eval c l) (Fin.eval c l)
-def setex (px : Bool) := CustomBody.plain (Desc.setex px) (Bodies.setex px) (Shape.setex px) (Fin.setex px)
-def spop := CustomBody.plain Desc.spop Bodies.spop Shape.spop Fin.spop
-def setrange := CustomBody.plain Desc.setrange Bodies.setrange Shape.setrange Fin.setrange
-def setbit := CustomBody.plain Desc.setbit Bodies.setbit Shape.setbit Fin.setbit
-def getbit := CustomBody.plain Desc.getbit Bodies.getbit Shape.getbit Fin.getbit
-def incrbyfloat := CustomBody.plain Desc.incrbyfloat Bodies.incrbyfloat Shape.incrbyfloat Fin.incrbyfloat
-def optStr (c : Bytes) := CustomBody.plain (Desc.optStr c) (Bodies.optStr c) (Shape.optStr c) (Fin.optStr c)
-def aclGenpass := CustomBody.plain Desc.aclGenpass Bodies.aclGenpass Shape.aclGenpass Fin.aclGenpass
-def stub (text : Bytes) := CustomBody.plain (Desc.stub text) (fun _ => .ok ⟨s2b "Unknown", [.s text]⟩) (Shape.stub text) (Fin.stub text)
-def luaExpire := CustomBody.plain Desc.luaExpire Bodies.luaExpire Shape.luaExpire Fin.luaExpire
-def luaZrange := CustomBody.plain Desc.luaZrange Bodies.luaZrange Shape.luaZrange Fin.luaZrange
+def ping := CustomBody.plain Desc.ping Bodies.ping Shape.ping Fin.ping Chk.ping
+def select := CustomBody.plain Desc.select Bodies.select Shape.select Fin.select Chk.select
+def auth := CustomBody.plain Desc.auth Bodies.auth Shape.auth Fin.auth Chk.auth
+def eval (c : Bytes) (l : Lit) := CustomBody.plain (Desc.eval c l) (Bodies.eval c l) (Shape.eval c l) (Fin.eval c l) (Chk.eval c l)
+def setex (px : Bool) := CustomBody.plain (Desc.setex px) (Bodies.setex px) (Shape.setex px) (Fin.setex px) (Chk.setex px)
+def spop := CustomBody.plain Desc.spop Bodies.spop Shape.spop Fin.spop Chk.spop
+def setrange := CustomBody.plain Desc.setrange Bodies.setrange Shape.setrange Fin.setrange Chk.setrange
+def setbit := CustomBody.plain Desc.setbit Bodies.setbit Shape.setbit Fin.setbit Chk.setbit
+def getbit := CustomBody.plain Desc.getbit Bodies.getbit Shape.getbit Fin.getbit Chk.getbit
+def incrbyfloat := CustomBody.plain Desc.incrbyfloat Bodies.incrbyfloat Shape.incrbyfloat Fin.incrbyfloat Chk.incrbyfloat
+def optStr (c : Bytes) := CustomBody.plain (Desc.optStr c) (Bodies.optStr c) (Shape.optStr c) (Fin.optStr c) (Chk.optStr c)
+def aclGenpass := CustomBody.plain Desc.aclGenpass Bodies.aclGenpass Shape.aclGenpass Fin.aclGenpass Chk.aclGenpass
+def stub (text : Bytes) := CustomBody.plain (Desc.stub text) (fun _ => .ok ⟨s2b "Unknown", [.s text]⟩) (Shape.stub text) (Fin.stub text) (Chk.stub text)
+def luaExpire := CustomBody.plain Desc.luaExpire Bodies.luaExpire Shape.luaExpire Fin.luaExpire Chk.luaExpire
+def luaZrange := CustomBody.plain Desc.luaZrange Bodies.luaZrange Shape.luaZrange Fin.luaZrange Chk.luaZrange
 
 end CB
 
